@@ -1274,3 +1274,47 @@ fire("c15-solver-nonunique-accepted", ["C15"], ALG,
      "        if len(nonz_row) != 1:\n"
      "            raise RuntimeError(f\"cannot uniquely solve for '{unknown}'\")\n\n", "",
      "P/solve_affine/")
+
+# ---------------------------------------------------------------------------
+# C19
+# ---------------------------------------------------------------------------
+fire("c19-integer-power-accepts-negative", ["C19"], ALG,
+     "    if n < 0:\n        raise RuntimeError(\"the integer power algorithm does not \"\n"
+     "                \"work for negative numbers\")\n\n", "",
+     "P/integer_power/negative-refused")
+fire("c19-integer-power-check-after-loop", ["C19"], ALG,
+     "    if n < 0:\n        raise RuntimeError(\"the integer power algorithm does not \"\n"
+     "                \"work for negative numbers\")\n\n    aux = one\n",
+     "    aux = one\n",
+     "P/integer_power/negative-refused")
+fire("c19-quotient-always-rational", ["C19"], PR,
+     "        if isinstance(c_traits, traits.EuclideanRingTraits):\n"
+     "            return rat.Rational(numerator, denominator)",
+     "        return rat.Rational(numerator, denominator)",
+     "P/quotient/rational-only-for-euclidean-rings")
+fire("c19-quotient-swapped", ["C19"], PR,
+     "    return Quotient(numerator, denominator)\n",
+     "    return Quotient(denominator, numerator)\n",
+     "P/quotient/node-operand-order")
+fire("c19-combine-polynomial-skips-coeffs", ["C19", "C04"], MI,
+     "            self.rec(expr.base, *args, **kwargs),\n"
+     "            *[self.rec(coeff, *args, **kwargs) for exp, coeff in expr.data]\n",
+     "            self.rec(expr.base, *args, **kwargs),\n",
+     "K/CombineMapper/map_polynomial")
+fire("c19-ident-polynomial-guard-ignores-coeffs", ["C19", "C04"], MI,
+     "        if base is expr.base and all(\n"
+     "                t[1] is orig_t[1] for t, orig_t in zip(data, expr.data)):\n"
+     "            return expr",
+     "        if base is expr.base:\n            return expr",
+     "F/IdentityMapper/map_polynomial")
+fire("c19-revert-polynomial-hash", ["C19", "C01"], POL,
+     "    def __hash__(self):\n        # Defining __eq__ resets the inherited __hash__. Must agree\n"
+     "        # with __eq__, which compares base and data.\n"
+     "        return hash((type(self).__name__, self.Base, self.Data))\n\n", "",
+     "Polynomial")
+fire("c19-evaluate-rational-inverted", ["C19"], MI,
+     "    def map_rational(self, expr, *args, **kwargs):\n"
+     "        return self.map_quotient(expr, *args, **kwargs)",
+     "    def map_rational(self, expr, *args, **kwargs):\n"
+     "        return self.map_algebraic_leaf(expr, *args, **kwargs)",
+     "E/EvaluationMapper/Rational")
